@@ -46,6 +46,7 @@ def check(prog: Program, run: Run) -> None:
     compu.scale_applies(prog, run, "C07.R1")
     compu.validity_vs_conversion(prog, run, "C07.R2")
     compu.conversion_guards(prog, run, "C07.R2")
+    compu.tolerances(prog, run, "C07.R7")
     compu.invertibility(prog, run, "C07.R3")
     compu.rounding(prog, run, "C07.R4")
     compu.tabintp_forms(prog, run, "C07.R7", "C07.R4")
